@@ -12,7 +12,9 @@ ALL = ["C%02d" % i for i in range(1, 21)]
 _d = os.path.join(ROOT, "manifest.d")
 if os.path.isdir(_d):
     for _f in sorted(os.listdir(_d)):
-        if _f.endswith(".json"):
+        # only checks the lead has integrated (listed in manifest.d/READY) are claimed
+        _ready = open(os.path.join(_d, "READY")).read().split() if os.path.exists(os.path.join(_d, "READY")) else []
+        if _f.endswith(".json") and _f[:-5] in _ready:
             CHECKS[_f[:-5]] = json.load(open(os.path.join(_d, _f)))
 
 def main():
